@@ -103,6 +103,10 @@ class MetaRunner(object):
             raise
         finally:
             self.running.clear()
+            # the runners of this run are gone, also after a graceful stop:
+            # payloads registered from now on are queued for the next run
+            with self._register_lock:
+                self._runners = {}
 
     async def _launch_runners(self) -> List[asyncio.Task]:
         """Launch all runners inside the current `asyncio` event loop"""
